@@ -48,12 +48,15 @@ static void rng_cb(int pt, const volatile uint32_t *word, uint32_t aux){
   pthread_mutex_lock(&gmu);
   int L = ident(pt == 0);
   int gated = gate_on && L >= 1 && L <= NWK;
+  /* a worker waits for its letter at the END of its previous step (parked inside the generator function, after the
+     store / after the copy), so that everything the function still holds in flight is exposed to the other workers'
+     steps; the first step waits at its start */
   switch(pt){
-    case 0: if(gated && steps[L] < Q) wait_turn(L); break;                                  /* before the seed store */
-    case 1: logev(1, L, word, aux); if(gated) step_done(L); break;                          /* after the seed store */
-    case 2: if(gated && steps[L] < Q) wait_turn(L); break;                                  /* before the read */
-    case 3: logev(2, L, word, aux); if(gated){ step_done(L); if(steps[L] < Q) wait_turn(L); } break;  /* after read, before write */
-    case 4: logev(1, L, word, aux); if(gated) step_done(L); break;                          /* after the write */
+    case 0: if(gated && steps[L] < Q && !inturn[L]) wait_turn(L); break;                                  /* before the seed store */
+    case 1: logev(1, L, word, aux); if(gated){ step_done(L); if(steps[L] < Q) wait_turn(L); } break;      /* after the seed store */
+    case 2: if(gated && steps[L] < Q && !inturn[L]) wait_turn(L); break;                                  /* before the read */
+    case 3: logev(2, L, word, aux); if(gated){ step_done(L); if(steps[L] < Q) wait_turn(L); } break;      /* after read, before write */
+    case 4: logev(1, L, word, aux); if(gated){ step_done(L); if(steps[L] < Q) wait_turn(L); } break;      /* after the write, before the value is computed */
   }
   pthread_mutex_unlock(&gmu);
 }
@@ -131,26 +134,33 @@ static int child_yscr(void *a_){
   return 0;
 }
 
-typedef struct { prob *P; int scheme, groups, iters; int lab[64]; } carg;
+typedef struct { prob *P; int scheme, groups, iters, reps; int lab[64]; } carg;
 static int child_counts(void *a_){
   carg *A = (carg*)a_; prob *P = A->P;
   vrt_force_nproc(1); vrt_install_iter_budget(200000, 0);
   MODELINPUT in = initModelInput(); in.mx = P->x; in.my = P->y; in.nlv = P->algo == A_PLS ? P->nlv : 0; in.xautoscaling = 1; in.yautoscaling = 0;
-  static const char *SN[3] = {"boot", "loo", "kfold"};
+  static const char *SN[4] = {"boot", "loo", "kfold", "stress"};
+  int reps = A->scheme == 3 ? A->reps : 2;
   VRT_EMIT("{\"e\":\"Run\",\"mode\":\"counts:%s\",\"algo\":\"%s\",\"n\":%d,\"p\":%d,\"ny\":%d,\"nlv\":%d,\"groups\":%d,\"nw\":%d,\"k\":0,\"word\":[]}", SN[A->scheme], ANAME[P->algo], P->n, P->p, P->ny, P->nlv, A->groups, A->iters);
-  uint64_t h1 = 0;
+  uint64_t h1 = 0; int caller_same = 1;
   for(int nth = 1; nth <= 8; nth++){
-    if(A->scheme == 0 && A->iters % nth) continue;           /* bootstrap claim: counts dividing the iteration count */
-    for(int rep = 0; rep < 2; rep++){
+    if((A->scheme == 0 || A->scheme == 3) && A->iters % nth) continue;           /* bootstrap claim: counts dividing the iteration count */
+    if(A->scheme == 3 && nth != 1 && nth != 8) continue;
+    for(int rep = 0; rep < (nth == 1 ? 1 : reps); rep++){
       matrix *pred; initMatrix(&pred);
-      if(A->scheme == 0) BootstrapRandomGroupsCV(&in, A->groups, A->iters, ATYPE[P->algo], pred, NULL, nth, NULL, 0);
+      srand_(4242);
+      if(A->scheme == 0 || A->scheme == 3) BootstrapRandomGroupsCV(&in, A->groups, A->iters, ATYPE[P->algo], pred, NULL, nth, NULL, 0);
       else if(A->scheme == 1) LeaveOneOut(&in, ATYPE[P->algo], pred, NULL, nth, NULL, 0);
       else { uivector *g; NewUIVector(&g, P->n); for(int i = 0; i < P->n; i++) g->data[i] = A->lab[i]; KFoldCV(&in, g, ATYPE[P->algo], pred, NULL, nth, NULL, 0); DelUIVector(&g); }
+      /* did the call leave the caller's own seeded stream alone? (observation, implementation-shaped) */
+      { int a[3], b[3]; for(int i = 0; i < 3; i++) a[i] = randInt(0, 1000000); srand_(4242); for(int i = 0; i < 3; i++) b[i] = randInt(0, 1000000); if(memcmp(a, b, sizeof(a))) caller_same = 0; }
       uint64_t h = hash_matrix(pred); DelMatrix(&pred);
       if(nth == 1 && rep == 0){ h1 = h; VRT_EMIT("{\"e\":\"Seq\",\"h\":[%ld,%ld,%ld]}", H3(h1)); }
-      else VRT_EMIT("{\"e\":\"Result\",\"h\":[%ld,%ld,%ld],\"forced\":0,\"addrs\":0,\"nth\":%d}", H3(h), nth);
+      else if(A->scheme != 3 || h != h1 || rep == reps - 1) VRT_EMIT("{\"e\":\"Result\",\"h\":[%ld,%ld,%ld],\"forced\":0,\"addrs\":0,\"nth\":%d,\"rep\":%d}", H3(h), nth, rep);
+      if(A->scheme == 3 && h != h1) break;
     }
   }
+  VRT_EMIT("{\"e\":\"Caller\",\"same\":%d}", caller_same);
   VRT_EMIT("{\"e\":\"End\"}");
   return 0;
 }
@@ -203,6 +213,20 @@ int main(int argc, char **argv){
       VRT_EMIT("{\"e\":\"Reset\"}");
       int rc = vrt_run_child(child_counts, &A, 300);
       if(rc != 0) crash(rc, "counts", &P);
+      free_problem(&P);
+    }
+  }
+  else if(!strcmp(mode, "stress")){
+    /* many workers accumulating at once: any state shared between workers without synchronisation loses updates sooner or later.
+       Sampled schedules (not forced): repeated 8-thread runs against the single-thread result. */
+    int reps = atoi(argv[4]);
+    for(int t = 0; t < 3; t++){
+      int algo = (int[]){A_MLR, A_PLS, A_MLR}[t];
+      prob P; gen_problem(&P, &R, algo, (int[]){24, 30, 30}[t], (int[]){2, 2, 1}[t], (int[]){1, 2, 3}[t], 1);
+      carg A; memset(&A, 0, sizeof(A)); A.P = &P; A.scheme = 3; A.groups = (int[]){2, 3, 30}[t]; A.iters = (int[]){64, 32, 8}[t]; A.reps = reps;
+      VRT_EMIT("{\"e\":\"Reset\"}");
+      int rc = vrt_run_child(child_counts, &A, 900);
+      if(rc != 0) crash(rc, "stress", &P);
       free_problem(&P);
     }
   }
